@@ -38,3 +38,19 @@ package slicesext
 //@   property C02 C06
 //@   ensures r != nil && (forall k T :: (k in r) <==> (exists j int :: 0 <= j && j < len(s) && s[j] == k))
 //@   loop 0 invariant m != nil && (forall k T :: (k in m) <==> (exists j int :: 0 <= j && j < $i && s[j] == k))
+//
+// Map / MapError / Filter apply a deterministic callback element-wise and keep the order.
+//@ func Map(s, f) (r)
+//@   property C02 C08
+//@   callback pure f
+//@   modifies heap
+//@   ensures len(r) == len(s) && (forall i int :: 0 <= i && i < len(s) ==> r[i] == f(s[i]))
+//@   loop 0 invariant len(sm) == len(s) && (forall j int :: 0 <= j && j < $i ==> sm[j] == f(s[j]))
+//
+//@ func MapError(s, f) (r, err)
+//@   property C02 C08
+//@   callback pure f
+//@   modifies heap
+//@   ensures elementwise: err == nil ==> len(r) == len(s) && (forall i int :: 0 <= i && i < len(s) ==> second(f(s[i])) == nil && r[i] == first(f(s[i])))
+//@   ensures first-error: err != nil ==> (exists i int :: 0 <= i && i < len(s) && second(f(s[i])) == err)
+//@   loop 0 invariant len(sm) == len(s) && (forall j int :: 0 <= j && j < $i ==> second(f(s[j])) == nil && sm[j] == first(f(s[j])))
